@@ -130,9 +130,10 @@ class Opt:
 class SymList:
     """List or tuple of symbolic length. arrs: one z3 array per element component;
     etypes: type descriptor per component; tup: elements are tuples."""
-    __slots__ = ("arrs", "length", "etypes", "tup", "immutable")
+    __slots__ = ("arrs", "length", "etypes", "tup", "immutable", "parts")
 
-    def __init__(self, arrs, length, etypes, tup=False, immutable=False):
+    def __init__(self, arrs, length, etypes, tup=False, immutable=False, parts=None):
+        self.parts = parts          # a + b: the operands, so that facts can be stated per operand
         self.arrs = tuple(arrs)
         self.length = length
         self.etypes = tuple(etypes)
@@ -256,6 +257,18 @@ class IndexV:
 
     def __repr__(self):
         return "IndexV(%s,%s,%s)" % (self.ip, self.i0, self.i1)
+
+
+class Grid2:
+    """List of d0 lists of d1 extended reals (a cost table): inf[l][m] tells float('inf')."""
+    def __init__(self, inf, val, d0, d1):
+        self.inf, self.val, self.d0, self.d1 = inf, val, d0, d1
+
+
+class GridRow:
+    """grid[l] (read or write through it)."""
+    def __init__(self, grid, row):
+        self.grid, self.row = grid, row
 
 
 class RangeV:
